@@ -56,7 +56,7 @@ CHECKS = {
     "C26": ("other", "DESIGN.md#c26", "Part: resume(file) returns results equal (atom order, tags, times, values) to _run_from_sequence_data on the same solver state for every permutation (n<=3), ordering flag, solver class and remaining-step count; autosave removed; pickled field bookkeeping; every snapshot save_simulation can write under a symbolic autosave schedule of the real TDVP/DMRG progress() state machine (N<=3 quick, <=5 thorough) resumes to exactly the uninterrupted sequence of evolution steps. Pickle fidelity of torch state and distributions of noisy runs are outside.", TECH_M, NOTE_M),
     "C27": ("other", "DESIGN.md#c27", "Full: crash before/after/inside every file-system operation of save_simulation over a symbolic file system (POSIX rename semantics) from any 'first autosave completed' pre-state: the advertised name always holds a complete old or new snapshot and the real resume entry accepts it.", TECH_M, NOTE_M),
     "C29": ("other", "DESIGN.md#c29", "Part: phase offset is a unitary equivalence (H(phi+c)=R H R^dag, R commutes with n_i, energy invariant) and phase negation an anti-unitary one, on both Hamiltonian implementations (N<=3, thorough 4). Register isometries and serialisation are Pulser code, outside.", TECH_S, NOTE_S),
-    "C30": ("other", "DESIGN.md#c30", "Part: the operators DHDOmega/Phi/Delta/U used by emu-sv's custom backward equal the exact partial derivatives of the Hamiltonian (finite difference for the affine parameters, dense formula for phi), N<=3 (thorough 4), both phase branches; EvolveStateVector.backward assembles every requested gradient from the right derivative operator for all 32 needs_input_grad combinations (double_krylov/krylov_exp as stubs); the gradient through PCHIP1D is finite for all samples incl. flat segments (every divisor met is non-zero); forward() saves the un-modified input state for backward (input states of any norm, nine needs_input_grad combinations); backward returns exact zeros for a zero incoming gradient. double_krylov itself and the value of autograd gradients are outside.", TECH_S, NOTE_S),
+    "C30": ("other", "DESIGN.md#c30", "Part: the operators DHDOmega/Phi/Delta/U used by emu-sv's custom backward equal the exact partial derivatives of the Hamiltonian (finite difference for the affine parameters, dense formula for phi), N<=3 (thorough 4), both phase branches; EvolveStateVector.backward assembles every requested gradient from the right derivative operator for all 32 needs_input_grad combinations (double_krylov/krylov_exp as stubs); the gradient through PCHIP1D is finite for all samples incl. flat segments (every divisor met is non-zero); forward() saves the un-modified input state for backward (input states of any norm, nine needs_input_grad combinations); backward returns exact zeros for a zero incoming gradient; neither forward nor backward modifies a tensor of the autograd graph in place (input state, incoming gradient). double_krylov itself and the value of autograd gradients are outside.", TECH_S, NOTE_S),
     "C32": ("other", "DESIGN.md#c32", "Full within bounds: permutation helpers mutually consistent (all n! for n<=4/5); minimize_bandwidth returns a permutation that is no worse for symbolic symmetric matrices of any sign (n<=4) with RCM and randperm as arbitrary-permutation stubs and the restart/threshold loops cut; composition order of accumulated permutations.", TECH_S, NOTE_S),
     "C33": ("other", "DESIGN.md#c33", "Full within bounds: effective Krylov tolerance >= 1e-12 for symbolic precision/extra tolerance and every solver spelling, followed into krylov_exp and krylov_energy_minimization (exact reals; one-ulp float note), autosave_dt<=10 rejected, reordering on only if every requested observable is un-permuted or invariant (subsets of 14 observable options), DMRG refuses noise through create_impl.", TECH_M, NOTE_M),
     "C34": ("other", "DESIGN.md#c34", "Part: number of SequenceData = sum of reps (with and without Lindblad noise), each carrying its sample's data; run() simulates each exactly once and hands all results to Results.aggregate in order. Aggregation arithmetic is Pulser's and outside.", TECH_M, NOTE_M),
